@@ -398,6 +398,35 @@ func (sp *specParser) parsePostfix() SExpr {
 			x = &SIndex{x, i}
 		case sp.accept("("):
 			var args []SExpr
+			if id, ok := x.(*SIdent); ok && id.Name == "typeis" {
+				// typeis(expr, Type): the type is kept as raw text
+				args = append(args, sp.parseExpr())
+				sp.expect(",")
+				depth := 1
+				var ty []string
+				for {
+					t := sp.next()
+					if t.kind == tEOF {
+						sp.fail("unterminated typeis")
+					}
+					if t.kind == tOp && (t.text == "(" || t.text == "[") {
+						depth++
+					}
+					if t.kind == tOp && t.text == "]" {
+						depth--
+					}
+					if t.kind == tOp && t.text == ")" {
+						depth--
+						if depth == 0 {
+							break
+						}
+					}
+					ty = append(ty, t.text)
+				}
+				args = append(args, &SIdent{strings.Join(ty, "")})
+				x = &SCall{x, args}
+				continue
+			}
 			for !sp.isOp(")") {
 				args = append(args, sp.parseExpr())
 				if !sp.accept(",") {
